@@ -849,7 +849,7 @@ func rulePick(c *Ctx, rule string) {
 					}
 					return false
 				}
-				if edgeOK(zeroEdge, token.GEQ, token.EQL) && edgeOK(incEdge, token.LSS, token.NEQ) {
+				if edgeOK(zeroEdge, token.GEQ) && edgeOK(incEdge, token.LSS) {
 					nextPhi, nextStore = phi, sts[0]
 				}
 			}
@@ -895,8 +895,12 @@ func rulePick(c *Ctx, rule string) {
 			}
 			if isFieldLoad(x, idx) {
 				if lc, isC := y.(*ssa.Call); isC && calleeName(lc) == "builtin.len" && isFieldLoad(lc.Call.Args[0], chans) {
-					if op == token.GEQ || op == token.EQL {
+					if op == token.GEQ {
 						okWrap = true
+					} else if op == token.EQL {
+						// remove() shrinks the list without clamping the cursor, so idx can already be >= len when pick
+						// runs: an equality test is stepped over and the element at idx > len is read
+						c.fail(rule, "cursor wrap comparison", w.At(wrap), "the cursor is wrapped only when idx == len(chans); a tunnel leaving the pool while the cursor rests on the last slot leaves idx > len after the increment (remove does not clamp the cursor): index out of range in pick")
 					} else {
 						c.fail(rule, "cursor wrap comparison", w.At(wrap), "the cursor is wrapped when idx "+op.String()+" len(chans); it must wrap when idx >= len: with '>' the element at index len is read (panic after the last tunnel, or after a tunnel leaves)")
 					}
@@ -1331,6 +1335,27 @@ func ruleUnregisterAndCallbacks(c *Ctx, r6, r7 string) {
 				ok6 = fr1.Field == ro.TSHReverse && fr2.Field == ro.TSHByKey && stripConv(first.Call.Args[1]) == ssa.Value(un.Params[1]) && stripConv(second.Call.Args[1]) == ssa.Value(un.Params[1])
 			}
 		}
+	}
+	if ok6 {
+		// the by-key removal must not depend on the value of the key: every key the affinity function can return (nil
+		// included) is a legal registry key, so "already removed" may only be read off the removal's ok result
+		first, second := rms[0], rms[1]
+		if !dominates(first, second) {
+			first, second = second, first
+		}
+		keyTest := ""
+		for _, f := range factsAt(second) {
+			x, _, y, ok := cmpFact(f)
+			if !ok {
+				continue
+			}
+			for _, v := range []ssa.Value{x, y} {
+				if ex, isEx := origin(stripConv(v)).(*ssa.Extract); isEx && ex.Tuple == ssa.Value(first) && ex.Index == 0 {
+					keyTest = desc(f.Cond)
+				}
+			}
+		}
+		c.check(keyTest == "", r6, w.Short(un)+": by-key removal for every key", w.At(second), "the by-key removal is not conditional on the key's value", "the by-key removal is conditional on the key returned by the first removal ("+keyTest+"): a tunnel whose affinity key has that value (nil is a legal key) is removed from the global list but stays routable through KeyAsChannel")
 	}
 	c.check(ok6, r6, w.Short(un)+": both registries, second keyed by the first removal's result", posOf(w, un), "k, ok := reverse.remove(ch); reverseByKey[k].remove(ch)", "unregister does not remove the channel from the global registry and then from the by-key registry selected by the key that removal returned: a closed tunnel stays routable through KeyAsChannel")
 	// the channel's tear-down is this unregister
